@@ -228,6 +228,55 @@ def run(ctx):
 
         core.parallel(ctx, work, sts)
     vmx_dictionary_semantics(ctx)
+    random_configs(ctx, random.Random(ctx.seed + 1818), 400 if thorough else 80)
+
+
+def random_configs(ctx, rng, n):
+    """B: larger random configurations; the list reported by the real parser is mapped back to device slots / indices, recorded, and
+    validated by TLC (VmConfig!TraceSpec)."""
+    from harness import tracecheck
+    runs = []
+    classes = ["scsi", "sata", "ide", "nvme"]
+    types = ["none", "disk", "scsi-hardDisk", "cdrom-image", "cdrom-raw", "atapi-cdrom"]
+    for tid in range(1, n + 1):
+        kind = ["vmx", "ovf", "vbox", "pvs"][tid % 4]
+        try:
+            if kind == "vmx":
+                slots = rng.sample([(c, u) for c in classes for u in (0, 1)], rng.randrange(1, 8))
+                body = [{"slot": {"cls": c, "bus": 0, "unit": u}, "type": rng.choice(types), "file": rng.random() < 0.8, "dup": rng.random() < 0.3} for c, u in slots]
+                got, names, _ = observe("vmx", body, rng, rng.choice(VMX_STYLES))
+                inv = {v: k for k, v in names.items()}
+                reported = [{"cls": inv[g][0], "bus": inv[g][1], "unit": inv[g][2]} for g in got]
+            elif kind == "ovf":
+                body = {"fmap": [rng.choice([1, 2]), rng.choice([1, 2])],
+                        "items": [{"rtype": rng.choice([17, 17, 15, 14, 6]), "kind": rng.choice(["disk", "file"]), "idx": rng.choice([1, 2]), "prefix": rng.random() < 0.5}
+                                  for _ in range(rng.randrange(0, 7))]}
+                got, href, _ = observe("ovf", body, rng, rng.choice(OVF_STYLES))
+                inv = {v: k for k, v in href.items()}
+                reported = [inv[g] for g in got]
+            elif kind == "vbox":
+                body = [{"format": rng.choice(["VDI", "vdi", "Vdi", "VMDK", "VHD"]), "type": rng.choice(["Normal", "Normal", "Immutable", "Writethrough"]),
+                         "loc": rng.random() < 0.85, "nested": rng.random() < 0.4} for _ in range(rng.randrange(0, 8))]
+                got, locs, _ = observe("vbox", body, rng, rng.choice([{}, {"attr_order": True}]))
+                inv = {v: k for k, v in locs.items()}
+                reported = [inv[g] for g in got]
+            else:
+                body = [{"kind": rng.choice(["Hdd", "Hdd", "CdRom", "Fdd"]), "sysname": rng.random() < 0.8} for _ in range(rng.randrange(0, 8))]
+                got, names, _ = observe("pvs", body, rng, {})
+                inv = {v: k for k, v in names.items()}
+                reported = [inv[g] for g in got]
+        except Exception as e:  # noqa: BLE001
+            ctx.violation({"kind": kind, "fail": "raised", "sub": "random-configs", "exc": type(e).__name__}, {"error": repr(e)[:300]})
+            continue
+        ctx.case(key=("random", kind, repr(body)), nontrivial=True)
+        runs.append({"tid": tid, "kind": kind, "body": body, "reported": reported})
+    if runs:
+        verdicts, res = tracecheck.validate("VmConfig", "TraceVmConfig.cfg", runs)
+        ctx.add_tlc("TraceVmConfig.cfg (random configurations)", res)
+        for r in runs:
+            ctx.traces_validated += 1
+            if verdicts[r["tid"]][0] == "reject":
+                ctx.violation({"kind": r["kind"], "fail": "disk-list", "sub": "random-configs"}, {"body": r["body"], "reported": r["reported"]})
 
 
 def vmx_dictionary_semantics(ctx):
